@@ -874,6 +874,11 @@ func c02i(c *Ctx) {
 					if typ == "chunk" && k == "emitter.chunk.returnID" && c.W.FuncKey(fn) == "(*emitter.chunk).splitChunkForBranch" {
 						continue
 					}
+					// a chunk that a constructor helper has just made and handed back is still under
+					// construction in the function that asked for it
+					if typ == "chunk" && chunkWritesOnlyNew(c, fn, strings.TrimPrefix(k, "emitter.chunk.")) {
+						continue
+					}
 					bad = c.W.FuncKey(fn) + " writes " + k + " at " + c.W.Pos(site.Pos())
 				}
 			}
@@ -896,4 +901,44 @@ func exprRoot(fn *ssa.Function) string {
 		}
 	}
 	return "$1.operatorExpression"
+}
+
+// chunkWritesOnlyNew: every store in fn to field f of a chunk goes to a chunk that fn allocated, or
+// that a repo function called by fn allocated and returned (all of whose chunk results are its
+// own allocations).
+func chunkWritesOnlyNew(c *Ctx, fn *ssa.Function, f string) bool {
+	isCtor := func(g *ssa.Function) bool {
+		if g == nil || !c.W.InRepo(g) || len(g.Blocks) == 0 {
+			return false
+		}
+		n := 0
+		for _, r := range returnsOf(g) {
+			for _, res := range r.Results {
+				if !typeIs(res.Type(), "emitter", "chunk") {
+					continue
+				}
+				n++
+				if _, own := res.(*ssa.Alloc); !own {
+					return false
+				}
+			}
+		}
+		return n > 0
+	}
+	ok := true
+	for _, st := range storesToField(fn, "emitter", "chunk", f) {
+		switch r := rootValue(st.Addr).(type) {
+		case *ssa.Alloc:
+		case *ssa.Call:
+			ok = ok && isCtor(callee(r))
+		case *ssa.Extract:
+			cl, isCall := r.Tuple.(*ssa.Call)
+			ok = ok && isCall && isCtor(callee(cl))
+		default:
+			if !isFreshLocal(st.Addr) {
+				ok = false
+			}
+		}
+	}
+	return ok
 }
